@@ -8,6 +8,8 @@ THEOREMS = [
     'Sbepp.Properties.C02.scalar_roundtrip',
     'Sbepp.Properties.C02.scalar_bytes_roundtrip',
     'Sbepp.Properties.C02.message_size',
+    'Sbepp.Properties.C02.encode_then_decode',
+    'Sbepp.Properties.C02.encode_then_decode_accepted',
 ]
 EXT = False
 WALK_MODULE = 'Sbepp.Properties.C02Walk'
